@@ -161,6 +161,13 @@ func run4(c *fw.Ctx) {
 			one(c, p, prog{src: p})
 		}
 	}
+	// programs at the capacity limits of the format: the largest counts the compiler accepts must survive the codec
+	c.Family("capacity-boundaries", "functions / main / module with 1, 200, 255 and 256 locals or parameters; calls with 255 arguments; literals of 255..65535 elements; 255..300 constants")
+	for _, p := range boundaryPrograms() {
+		if c.Next() {
+			one(c, "boundary: "+p.name, prog{src: p.src, mm: p.mm})
+		}
+	}
 	c.Family("modules", "builtin module maps with every value type, real stdlib modules, source modules; decoded with the same map")
 	for i, p := range modulePrograms() {
 		if c.Next() {
@@ -314,4 +321,47 @@ func mismatchCases() []mismatch {
 		{src, "a module that lacks one item", stdMap(), missingItem},
 		{src, "a source module of the same name", stdMap(), asSource},
 	}
+}
+
+type boundaryProg struct {
+	name, src string
+	mm        *ugo.ModuleMap
+}
+
+func boundaryPrograms() []boundaryProg {
+	names := func(prefix string, n int) []string {
+		out := make([]string, n)
+		for i := range out {
+			out[i] = fmt.Sprintf("%s%d", prefix, i)
+		}
+		return out
+	}
+	var out []boundaryProg
+	for _, n := range []int{1, 200, 255, 256} {
+		vs := names("v", n)
+		decl := ""
+		for _, v := range vs {
+			decl += v + " := 1; "
+		}
+		out = append(out, boundaryProg{name: fmt.Sprintf("func with %d locals", n), src: "f := func() { " + decl + "return " + vs[0] + " + " + vs[n-1] + " }; return f()"})
+		out = append(out, boundaryProg{name: fmt.Sprintf("main with %d locals", n), src: decl + "return " + vs[0] + " + " + vs[n-1]})
+		ps := strings.Join(names("p", n), ", ")
+		out = append(out, boundaryProg{name: fmt.Sprintf("func with %d params", n), src: "f := func(" + ps + ") { return p0 }; g := func(...a) { return f(...a) }; return g(...repeat([7], " + fmt.Sprint(n) + "))"})
+		out = append(out, boundaryProg{name: fmt.Sprintf("main with %d params", n), src: "param (" + ps + "); return [p0, p" + fmt.Sprint(n-1) + "]"})
+		mm := ugo.NewModuleMap()
+		mm.AddSourceModule("big", []byte(decl+"return "+vs[0]+" + "+vs[n-1]))
+		out = append(out, boundaryProg{name: fmt.Sprintf("module with %d locals", n), src: "return import(\"big\")", mm: mm})
+	}
+	for _, n := range []int{254, 255} {
+		out = append(out, boundaryProg{name: fmt.Sprintf("call with %d arguments", n), src: "f := func(...a) { return len(a) }; o := 1; return f(" + strings.TrimSuffix(strings.Repeat("o, ", n), ", ") + ")"})
+	}
+	for _, n := range []int{255, 256, 257, 2000} {
+		out = append(out, boundaryProg{name: fmt.Sprintf("array literal of %d constants", n), src: "return [" + strings.Join(names("", n), ", ") + "]"})
+		var kv []string
+		for i := 0; i < n; i++ {
+			kv = append(kv, fmt.Sprintf("k%d: \"s%d\"", i, i))
+		}
+		out = append(out, boundaryProg{name: fmt.Sprintf("map literal of %d string constants", n), src: "m := {" + strings.Join(kv, ", ") + "}; return [len(m), m.k0, m.k" + fmt.Sprint(n-1) + "]"})
+	}
+	return out
 }
